@@ -121,7 +121,20 @@ func c11monitor(cw *caseWriter) func(tag string, in, obs []uint64) {
 			case len(o) > 0 && o[0] == 10 && e.kind == 9:
 				next = parseState(o[skipTrace(o, 2):])
 				if cur != nil && next != nil && o[1] == 0 && len(next.snaps) > 0 {
+					// the snapshot just taken: the one the listing did not hold before (normally the first: newest by (term, index);
+					// not so on start-up images whose snapshots carry a term above the log's)
 					sn, cfg := next.snaps[0], next.snapCfgs[0]
+					had := map[[4]uint64]int{}
+					for _, x := range cur.snaps {
+						had[x]++
+					}
+					for k, x := range next.snaps {
+						if had[x] == 0 {
+							sn, cfg = x, next.snapCfgs[k]
+							break
+						}
+						had[x]--
+					}
 					for _, p := range []string{"C11", "C10"} {
 						if sn[2] != cur.sc[sCommittedIdx] || !srvsEqual(cfg, cur.committed) {
 							cw.monitor(p, tag, "snapshot-records-a-configuration-that-is-not-the-committed-one", "event %d: snapshot at %d records configuration %v (index %d); the committed configuration was %v (index %d)", i, sn[0], cfg, sn[2], cur.committed, cur.sc[sCommittedIdx])
@@ -138,18 +151,24 @@ func c11monitor(cw *caseWriter) func(tag string, in, obs []uint64) {
 					for _, l := range next.log {
 						kept[l[0]] = true
 					}
-					removedAbove, before := false, 0
+					removedAbove, removedTrailing, before := false, uint64(0), 0
+					lastBefore := cur.sc[sLastLogIdx]
 					for _, l := range cur.log {
 						before++
 						if !kept[l[0]] && l[0] > sn[0] {
 							removedAbove = true
 						}
+						// the TrailingLogs window: the last TrailingLogs indices of the log (a log with a gap below an installed
+						// snapshot holds fewer entries than indices there: what counts is that none of the window is removed)
+						if !kept[l[0]] && l[0]+c.trailing > lastBefore && removedTrailing == 0 {
+							removedTrailing = l[0]
+						}
 					}
 					if removedAbove {
 						cw.monitor("C11", tag, "compaction-removed-entry-above-snapshot", "event %d: snapshot at %d", i, sn[0])
 					}
-					if uint64(before) >= c.trailing && uint64(len(next.log)) < c.trailing {
-						cw.monitor("C11", tag, "compaction-left-fewer-than-trailing-logs", "event %d: %d entries left, TrailingLogs %d, %d before", i, len(next.log), c.trailing, before)
+					if removedTrailing != 0 {
+						cw.monitor("C11", tag, "compaction-left-fewer-than-trailing-logs", "event %d: entry %d removed, last index %d, TrailingLogs %d (%d entries left, %d before)", i, removedTrailing, lastBefore, c.trailing, len(next.log), before)
 					}
 					// every index up to the last is covered by the snapshot or present, contiguous above it
 					last := next.sc[sLastLogIdx]
